@@ -186,6 +186,9 @@ fn record(seed: u64, runs: u64, target: usize, path: &str, faults: bool, palette
                 }
             }
             v
+        } else if palette {
+            // fault family: three runs in ONE buffer handed to ONE call; the console fails or is short at a LATER run
+            b"one\x1b[31mtwo\x1b[42mthree\x1b[0m four".to_vec()
         } else if k % 6 == 5 {
             gen::gen_stream(&mut r, target, gen::Flavor::Full)
         } else {
@@ -193,6 +196,15 @@ fn record(seed: u64, runs: u64, target: usize, path: &str, faults: bool, palette
         };
         bytes += input.len() as u64;
         let mut script = VecDeque::new();
+        let family: [&[Resp]; 10] = [
+            &[Resp::All, Resp::ErrO], &[Resp::All, Resp::ErrI], &[Resp::Short(1), Resp::All, Resp::ErrO], &[Resp::All, Resp::All, Resp::ErrI],
+            &[Resp::All, Resp::Short(2), Resp::ErrO], &[Resp::All, Resp::Short(0)], &[Resp::Short(2), Resp::Short(1), Resp::All, Resp::Short(1)],
+            &[Resp::ErrO], &[Resp::ErrI], &[Resp::All, Resp::All, Resp::All, Resp::ErrO],
+        ];
+        let fam = if palette && k >= 17 { Some(family[((k - 17) / 3) as usize % family.len()]) } else { None };
+        if let Some(f) = fam {
+            script.extend(f.iter().cloned());
+        }
         if faults {
             let profile = r.below(3);
             for _ in 0..input.len() {
@@ -212,7 +224,7 @@ fn record(seed: u64, runs: u64, target: usize, path: &str, faults: bool, palette
         }
         let log = Rc::new(RefCell::new(ConsoleLog { script, calls: vec![] }));
         let mut s = wincon::WinconStream::new(Console(log.clone()));
-        let style = *r.pick(&[0usize, 1, 2, 3, 5, 8, 17, 64]);
+        let style = if fam.is_some() { 0 } else { *r.pick(&[0usize, 1, 2, 3, 5, 8, 17, 64]) };
         let cuts = gen::gen_partition(&mut r, input.len(), style);
         let text_ok = std::str::from_utf8(&input).is_ok();
         let mut pos = 0;
@@ -220,6 +232,9 @@ fn record(seed: u64, runs: u64, target: usize, path: &str, faults: bool, palette
         for c in cuts {
             let mut c = c;
             let mut op = ["write", "write_all", "write_all", "write_fmt", "vectored"][r.below(5)];
+            if fam.is_some() {
+                op = ["write", "write_all", "write_fmt"][(k % 3) as usize];
+            }
             if op == "write_fmt" {
                 if !text_ok {
                     op = "write_all";
